@@ -184,6 +184,16 @@ func (w *workerState) handle(req *Req) Resp {
 			v := parsed.Evaluate(w.env, excellent.NewScope(types.NewXObject(props), nil), &excellent.Warnings{})
 			describeValue(o, v, req.Full)
 		}))
+	case "expr":
+		// the tree evaluator on a parsed expression over the fixed context of exprgen.go
+		resp.Out = append(resp.Out, guarded(func(o *Out) {
+			parsed, err := excellent.Parse(req.Tpl, nil)
+			if err != nil {
+				panic("harness: cannot parse " + req.Tpl + ": " + err.Error())
+			}
+			ctx := exprContext().build(w.env).(*types.XObject)
+			describeValue(o, parsed.Evaluate(w.env, excellent.NewScope(ctx, nil), &excellent.Warnings{}), req.Full)
+		}))
 	case "tpl":
 		ctx := func() *types.XObject { return types.NewXObject(w.run.RootContext(w.env)) }
 		resp.Out = append(resp.Out, guarded(func(o *Out) {
